@@ -3,7 +3,7 @@
 from __future__ import annotations
 
 from .. import absint
-from ..driver import Driver, Facts, atom, dyn_signature, integer_atom, rec_signature
+from ..driver import Driver, Facts, atom, dyn_signature, integer_atom, rec_signature, static_signature
 from ..index import AnalysisError
 from ..poly import Rat
 from ..values import Obj, Raised, to_rat
@@ -59,9 +59,10 @@ def _strategies(ctx, slices=(1, 2, 3, 4), with_plain=True):
         h = dyn_signature(out)
         want_zero = h[5] if isinstance(h, tuple) and len(h) == 6 else None
         ok_t = to_rat(t_end).equals(T)
-        ok_h = isinstance(h, tuple) and len(h) == 6 and h[:5] == ("run", "fwd", FWD_FLAGS, "0", "T") and isinstance(want_zero, tuple) and want_zero[0] == "zero"
+        want_flags = FWD_FLAGS + (("materials", static_signature(arr)),)  # every step sees the caller's material arrays, conductivities included
+        ok_h = isinstance(h, tuple) and len(h) == 6 and h[:5] == ("run", "fwd", want_flags, "0", "T") and isinstance(want_zero, tuple) and want_zero[0] == "zero"
         mats = all(to_rat(out.attrs[n]).equals(to_rat(arr.attrs[n])) for n in ("inv_permittivities", "inv_permeabilities", "electric_conductivity", "magnetic_conductivity"))
-        ctx.ob("R5.1", f"run_fdtd[{label}]:final-state", ok_t and ok_h and mats, "ends at step T; fields and detector states are `reset, then steps 0..T-1 with record_detectors=True, simulate_boundaries=True`; materials untouched", (to_rat(t_end).fmt(), str(h)[:200], mats), ("T", ("run", "fwd", FWD_FLAGS, "0", "T", "zero state")))
+        ctx.ob("R5.1", f"run_fdtd[{label}]:final-state", ok_t and ok_h and mats, "ends at step T; fields and detector states are `reset, then steps 0..T-1 with record_detectors=True, simulate_boundaries=True, each step seeing the caller's permittivity, permeability and both conductivities`; materials untouched", (to_rat(t_end).fmt(), str(h)[:200], mats), ("T", ("run", "fwd", FWD_FLAGS, "0", "T", "zero state")))
         if ref is None:
             ref = h
         else:
